@@ -44,6 +44,7 @@ type Ptr struct {
 	Path   []int      // struct-field path below the root
 	Type   types.Type // type of the location itself
 	Global *ssa.Global
+	GhostName string
 }
 
 func (p *Ptr) key() string {
@@ -294,12 +295,12 @@ func (ti *TypeInfo) elemComp(elem types.Type, path []int) (string, string) {
 	if _, ok := elem.Underlying().(*types.Struct); ok {
 		return "E." + typeShort(elem) + "." + pathName(elem, path), ti.sortOf(lt)
 	}
-	return "E." + ti.sortOf(elem), ti.sortOf(lt)
+	return "E." + typeShort(elem), ti.sortOf(lt)
 }
 
 func (ti *TypeInfo) cellComp(t types.Type) (string, string) {
 	s := ti.sortOf(t)
-	return "C." + s, s
+	return "C." + typeShort(t), s
 }
 
 func sortedCells(m map[*Cell]Value) []*Cell {
